@@ -272,7 +272,7 @@ func (g *pacerGen) opUntil() {
 }
 
 func runPacer(w *bufio.Writer, seed uint64, n int, _ []string) {
-	root := u.NewRng(seed)
+	root := u.NewRng(seed*0x9E3779B97F4A7C15 + 0x5bd1e995) // see runCubic
 	dist := map[string]int{}
 	reported := map[string]bool{}
 	for ci := 0; ci < n; ci++ {
